@@ -148,11 +148,27 @@ def check(ctx):
         adt = F.adts.get(TR + "TestResults")
         names = [x["name"] for x in adt["variants"][0]["fields"]] if adt else []
         ok = names == ["results", "total_result"]
+    loop_form = False
+    if not ok:
+        # the same as an explicit loop: for v in values { results.push(R::from(v)) }; TestResults { results, total_result: results.iter().sum() }
+        from . import ckit as K
+        acc = K.accumulation(ctx, f, lambda e: match(e, Through(Call("IntoIterator::into_iter", Param(1), nargs=1))))
+        if acc is not None and len(acc["bodies"]) == 1 and len(acc["done"]) == 1:
+            q, conds, v = acc["bodies"][0]
+            d = acc["done"][0]
+            conv = v is not None and callee_is(v, "Into::into", "From::from") and len(v[3]) == 1 and K.strip(v[3][0], calls=()) == acc["item"]
+            is_res = lambda e: K.strip(e, calls=("Deref::deref",)) == acc["out"]
+            loop_form = not conds and conv and d.end == "return" and match(d.ret, Agg("TestResults::TestResults", is_res, Call("Iterator::sum", Call("[T]::iter", is_res, nargs=1), nargs=1)))
+            adt = F.adts.get(TR + "TestResults")
+            loop_form = loop_form and [x["name"] for x in adt["variants"][0]["fields"]] == ["results", "total_result"]
+            ok = loop_form
     ctx.check(ok, "R15.4", "TestResults/from=collect+sum-of-same-vector", short(ps[0].ret, 7) if ps else "-", f.at(),
               bad_detail="expected TestResults{results: collect(map(into_iter(values), Into::into)), total_result: sum(results.iter())}; extracted " +
               "; ".join(short(p.ret, 10) for p in ps))
     allowed = ("IntoIterator::into_iter", "Iterator::map", "Iterator::collect", "Deref::deref", "[T]::iter", "Iterator::sum")
-    extra = [c for p in ps for c in p.calls() if not callee_is(c, *allowed)]
+    if loop_form:
+        allowed = allowed + ("Vec::new", "Vec::with_capacity", "Iterator::next", "Vec::push", "Into::into", "From::from", "Vec::len", "ExactSizeIterator::len", "Iterator::size_hint")
+    extra = [c for p in (ctx.paths(f) if loop_form else ps) for c in p.calls() if not callee_is(c, *allowed)]
     ctx.check(not extra, "R15.4", "TestResults/from-no-reordering-adaptor", "only into_iter/map/collect/iter/sum are called", f.at(),
               bad_detail="unexpected calls: " + ", ".join(short(c, 3) for c in extra))
     f = ctx.fn("<ec_core::test_results::TestResults<R> as std::iter::FromIterator<V>>::from_iter")
